@@ -145,6 +145,9 @@ def run(chk):
     from . import rules_C03, report
 
     report.include_rules(chk, r6, rules_C03, ("C03.R1", "C03.R4"), "a reply that arrives in several pieces is consumed like one that arrives whole")
+    from . import rules_C04
+
+    report.include_rules(chk, r6, rules_C04, ("C04.R1",), "a store command announces the length of exactly the block it sends: otherwise the server parses the surplus as commands and answers them, and those replies are read by later calls")
     chk.assume("Client.close does not raise ordinary exceptions (C06.R6)")
     chk.assume("the server answers each command with the number of reply lines the protocol defines")
 
